@@ -5,6 +5,7 @@
    stated, over ALL byte strings.  Register files [rf], values [v] and validity sets [s]
    are unrestricted (unbounded). *)
 From RM Require Import C18.Check C18.Proofs Gen.ContextTables.
+From RM Require C18.Driver.
 Open Scope Z_scope.
 
 (* the generated tables pass the finite checker (the one computational obligation) *)
@@ -368,6 +369,15 @@ Proof.
   repeat split; try (vm_compute; reflexivity). vm_compute. discriminate.
 Qed.
 Print Assumptions c18_sparc_before_fix_refuted.
+
+(* the correspondence driver's closed form of the harness's byte pattern (word j = 0x5A000000 + j, little
+   endian) against the byte-level definition, on aligned offsets incl. the ends of the 8 KiB pattern *)
+Example c18_pattern_closed_form :
+  forallb (fun off => (RM.C18.Driver.pattern_value 32 off =? RM.C18.Driver.le_value 4 off) &&
+                      (RM.C18.Driver.pattern_value 64 off =? RM.C18.Driver.le_value 8 off))
+          [0; 4; 8; 140; 184; 1020; 1024; 4092; 8180] = true.
+Proof. vm_compute. reflexivity. Qed.
+Print Assumptions c18_pattern_closed_form.
 
 (* ---- non-vacuity ---- *)
 Example c18_nonvacuous_tables :
